@@ -308,6 +308,14 @@ func c09CheckData(msg *pb.Data, wire []byte) error {
 	}
 	// encode -> reference decode
 	enc := data.EncodeUnixFSData(d)
+	// the bytes handed out belong to the caller: encoding something else afterwards must not change them
+	snapshot := append([]byte(nil), enc...)
+	_ = data.EncodeUnixFSData(c09OtherNode)
+	_ = data.EncodeUnixFSData(d)
+	_ = data.EncodeUnixFSData(c09OtherNode)
+	if !bytes.Equal(enc, snapshot) {
+		return fmt.Errorf("the %d bytes returned by EncodeUnixFSData changed after later EncodeUnixFSData calls: now %x, were %x", len(enc), enc, snapshot)
+	}
 	var back pb.Data
 	if err := proto.Unmarshal(enc, &back); err != nil {
 		return fmt.Errorf("reference rejects the library's encoding %x of {%v}: %v", enc, msg, err)
@@ -815,3 +823,13 @@ func TestC09_P_StrictParserAgrees(t *testing.T) {
 		ev.Sample(map[string]any{"wire_hex": fmt.Sprintf("%x", c.wire)})
 	})
 }
+
+
+// c09OtherNode is a small unrelated message encoded between uses of other encodings.
+var c09OtherNode = func() data.UnixFSData {
+	n, err := data.DecodeUnixFSData([]byte{0x08, 0x02, 0x12, 0x03, 'x', 'y', 'z', 0x18, 0x03})
+	if err != nil {
+		panic(err)
+	}
+	return n
+}()
